@@ -3,7 +3,7 @@
 is added or withdrawn; the per-property texts live here."""
 import json
 
-ENABLED = ["C01", "C05", "C09", "C11", "C12", "C14", "C15"]
+ENABLED = ["C01", "C05", "C09", "C11", "C12", "C14", "C15", "C18", "C19", "C20"]
 
 TB = ("trusted base: the observation channel /verif/sim/alpha (unsafe reads of Element/Point/Scalar memory, "
       "guarded by a reflect layout check and cross-checked against known encodings; a changed layout exits 2), "
